@@ -38,6 +38,9 @@ def dblStr (d : Dbl) : String :=
   | .inf s => if s then "-inf" else "inf"
   | .nan => "nan"
 
+/-- failed library assertions caught by the harness (`libassert <stage> <expr> <line>`) -/
+def libAsserts (c : Case) : Nat := (c.get "libassert").size
+
 def heapDiffers (c : Case) : Bool :=
   match c.get1 "heap" with
   | some h => h.size ≥ 2 && h[0]! != h[1]!
@@ -71,11 +74,10 @@ def compareRuns (c : Case) (what : String) (eq : Dbl → Dbl → Bool) : Option 
 def checkTwice (c : Case) (what : String) : CaseResult :=
   let (e, n, _) := compareRuns c what (fun x y => x == y)
   let hd := heapDiffers c
+  let st := [("values.compared", n), ("heap.order.differs", if hd then 1 else 0), ("finding.lib-assert", libAsserts c)]
   match e with
-  | some m => { verdict := .specfail m, nontrivial := true,
-                stats := [("values.compared", n), ("heap.order.differs", if hd then 1 else 0)] }
-  | none => { verdict := .ok, nontrivial := hd && n > 0,
-              stats := [("values.compared", n), ("heap.order.differs", if hd then 1 else 0)] }
+  | some m => { verdict := .specfail m, nontrivial := true, stats := st }
+  | none => { verdict := .ok, nontrivial := hd && n > 0, stats := st }
 
 def checkLayoutTwice (c : Case) : CaseResult :=
   let eq (x y : Dbl) : Bool :=
@@ -114,11 +116,16 @@ def checkRouteTranslate (c : Case) : CaseResult := Id.run do
   let orth := flag c "orth" == 1
   let a := runVecs c "A"
   let b := runVecs c "B"
-  if a.size != b.size then return { verdict := .specfail s!"route-translate: {a.size} vectors in A, {b.size} in B" }
+  let la := libAsserts c
+  -- a library assertion (nudging stage) that fails in one frame only removes that frame's display routes;
+  -- it is counted (finding.lib-assert.one-frame-only), the raw routes are still compared
+  if la == 0 && a.size != b.size then return { verdict := .specfail s!"route-translate: {a.size} vectors in A, {b.size} in B" }
+  let oneFrame := if la > 0 && a.size != b.size then 1 else 0
   let mut n := 0
   let mut inexact := 0
   let mut bendy := 0
   for (lab, av) in a do
+    if la > 0 && (findLabel b lab).isNone then continue
     match findLabel b lab, nums? av with
     | some bv, some ar =>
       match nums? bv with
@@ -126,6 +133,11 @@ def checkRouteTranslate (c : Case) : CaseResult := Id.run do
       | some br =>
         if ar.size != br.size then
           return { verdict := .specfail s!"route-translate: {lab} has {ar.size / 2} points, its translate {br.size / 2}: A={routeStr (ptsOf ar)} B={routeStr (ptsOf br)} shift=({ratToString tx},{ratToString ty})" }
+        if lab.startsWith "exc" then
+          -- the same library assertion must fail in both frames
+          if ar != br then
+            return { verdict := .specfail s!"route-translate: different library assertions fail in the two frames ({lab}: line {ar.toList.map ratToString} vs {br.toList.map ratToString})" }
+          continue
         let raw := !(lab.startsWith "display" || lab.startsWith "mdisplay")
         if raw && ar.size > 4 then bendy := bendy + 1
         for i in [0:ar.size] do
@@ -135,11 +147,13 @@ def checkRouteTranslate (c : Case) : CaseResult := Id.run do
             -- raw routes, and display routes of polyline connectors (no nudging), are copies of input
             -- coordinates: exact.  Nudged orthogonal display routes come out of a VPSC division.
             if raw || !orth || !(closeRel want br[i]!) then
-              return { verdict := .specfail s!"route-translate: {lab} coordinate {i} is {ratToString br[i]!}, expected {ratToString ar[i]!} + shift = {ratToString want}; A={routeStr (ptsOf ar)} B={routeStr (ptsOf br)}" }
+              let kind := if raw then "raw route" else if orth then "nudged displayRoute" else "displayRoute"
+              return { verdict := .specfail s!"route-translate: {kind} does not translate with the scene: {lab} coordinate {i} is {ratToString br[i]!}, expected {ratToString ar[i]!} + shift = {ratToString want}; A={routeStr (ptsOf ar)} B={routeStr (ptsOf br)} shift=({ratToString tx},{ratToString ty})" }
             inexact := inexact + 1
     | _, _ => return { verdict := .specfail s!"route-translate: vector {lab} missing in B or non-finite in A" }
   return { verdict := .ok, nontrivial := bendy > 0,
-           stats := [("values.compared", n), ("translate.display.rounded", inexact), ("routes.with.bends", bendy)] }
+           stats := [("values.compared", n), ("translate.display.rounded", inexact), ("routes.with.bends", bendy),
+                     ("finding.lib-assert", la), ("finding.lib-assert.one-frame-only", oneFrame)] }
 
 /-- lower / upper bound of Σ√(sq) -/
 def lenLo (sq : List Rat) : Rat := sq.foldl (fun acc x => acc + sqrtLo x 60) 0
@@ -151,6 +165,12 @@ def checkRouteSymmetry (c : Case) : CaseResult := Id.run do
   let sc := sceneOf c
   let conns := connsOf c
   let a := runVecs c "A"
+  -- a library assertion that fails in one frame only is a frame dependence as well
+  let aLabs := (a.filter (fun p => p.1.startsWith "route")).map (·.1)
+  for sym in [1:8] do
+    let sLabs := ((c.get "S").filter (fun l => l.size ≥ 2 && nat! l[0]! == sym)).map (fun l => l[1]!)
+    if sLabs != aLabs then
+      return { verdict := .specfail s!"route-symmetry: sym {sym} produced routes {sLabs.toList} but the original scene {aLabs.toList} (a library assertion failed in one frame only: {(c.get "libassert").toList.map (·.toList)})" }
   let mut compared := 0
   let mut sameRoute := 0
   let mut otherRoute := 0
@@ -199,7 +219,9 @@ def checkRouteSymmetry (c : Case) : CaseResult := Id.run do
     | _, _ => return { verdict := .specfail s!"route-symmetry: vector {lab} missing in A or non-finite" }
   return { verdict := .ok, nontrivial := bendy > 0,
            stats := [("sym.routes.compared", compared), ("sym.same.route.up.to.frame", sameRoute),
-                     ("sym.other.route.same.cost", otherRoute), ("routes.with.bends", bendy)] }
+                     ("sym.other.route.same.cost", otherRoute), ("routes.with.bends", bendy),
+                     ("finding.lib-assert", libAsserts c),
+                     ("finding.lib-assert.one-frame-only", if libAsserts c > 0 && libAsserts c < 8 then 1 else 0)] }
 
 /-! ### VPSC -/
 
@@ -242,7 +264,7 @@ def run (_args : List String) : IO UInt32 :=
     else if c.tag == "removeoverlaps-twice" then checkTwice c "not reproducible (removeoverlaps, distinct centres)"
     else if c.tag == "removeoverlaps-coincident" then checkTwice c "not reproducible (removeoverlaps, coincident centres)"
     else if c.tag == "layout-twice" then checkLayoutTwice c
-    else if c.tag == "route-translate" then checkRouteTranslate c
+    else if c.tag == "route-translate" || c.tag == "route-translate-orth" then checkRouteTranslate c
     else if c.tag == "route-symmetry" then checkRouteSymmetry c
     else if c.tag == "vpsc-translate" then checkVpscFrame c true
     else if c.tag == "vpsc-permute" then checkVpscFrame c false
